@@ -24,7 +24,18 @@ func CopyDirectory(src, dest string) error {
 	} else if !info.IsDir() {
 		return fmt.Errorf("%s is not a directory", src)
 	}
-	return filepath.Walk(src, func(path string, info os.FileInfo, err error) error {
+	// Create the destination's parents, then take the listing of the source before anything is
+	// copied: the destination may lie inside the source, and a walk that sees its own output
+	// never ends.
+	if err := MkdirAll(filepath.Dir(dest), filesystem.DefaultUnixDirMode); err != nil {
+		return err
+	}
+	type node struct {
+		subPath string
+		isDir   bool
+	}
+	var nodes []node
+	if err := filepath.Walk(src, func(path string, info os.FileInfo, err error) error {
 		if err != nil {
 			return err
 		}
@@ -32,11 +43,21 @@ func CopyDirectory(src, dest string) error {
 		if err != nil {
 			return err
 		}
-		if info.IsDir() {
-			return MkdirAll(filepath.Join(dest, subPath), filesystem.DefaultUnixDirMode)
+		nodes = append(nodes, node{subPath, info.IsDir()})
+		return nil
+	}); err != nil {
+		return err
+	}
+	for _, n := range nodes {
+		if n.isDir {
+			if err := MkdirAll(filepath.Join(dest, n.subPath), filesystem.DefaultUnixDirMode); err != nil {
+				return err
+			}
+		} else if err := CopyFile(filepath.Join(src, n.subPath), filepath.Join(dest, n.subPath)); err != nil {
+			return err
 		}
-		return CopyFile(path, filepath.Join(dest, subPath))
-	})
+	}
+	return nil
 }
 
 // CopyFile copy a single file on local files system.
